@@ -152,6 +152,8 @@ def conv_roots(kinds):
             add('r_view_%s_%s' % (nm, K), 'pub fn r_view_%s_%s(v: &%s%s) -> &%s[Tok] { %s }' % (nm, K, mut, V, mut, expr), kind='view', K=K)
         add('r_selfref_' + K, 'pub fn r_selfref_%s(v: &%s) -> &%s { AsRef::<%s>::as_ref(v) }' % (K, V, V, V), kind='selfview', K=K)
         add('r_selfmut_' + K, 'pub fn r_selfmut_%s(v: &mut %s) -> &mut %s { AsMut::<%s>::as_mut(v) }' % (K, V, V, V), kind='selfview', K=K)
+        # zero-sized element types: the views still have one entry per element (a length computed from byte sizes would be 0)
+        add('r_zstlen_' + K, 'pub fn r_zstlen_%s(v: &mut %s<()>) -> (usize, usize, usize, usize, usize) { (v.as_slice().len(), v.iter().len(), AsRef::<[()]>::as_ref(v).len(), core::ops::Deref::deref(v).len(), v.as_mut_slice().len()) }' % (K, K), kind='zstlen', K=K)
         add('r_refiter_' + K, 'pub fn r_refiter_%s(v: &%s) -> [Option<&Tok>; %d] { let mut it = v.into_iter(); [%s] }' % (K, V, N + 1, ', '.join(['it.next()'] * (N + 1))), kind='refiter', K=K)
         add('r_refiter_mut_' + K, 'pub fn r_refiter_mut_%s(v: &mut %s) -> [Option<&mut Tok>; %d] { let mut it = v.into_iter(); [%s] }' % (K, V, N + 1, ', '.join(['it.next()'] * (N + 1))), kind='refiter', K=K)
     for L, n in MATS:
@@ -219,6 +221,9 @@ def check_conv(ctx, sc, roots, meta):
             rsl = p.ev('rawslice')
             okr = bool(rsl) and all(e[3] == N and e[4] == 1 and e[5] == N for e in rsl)
             ctx.ob(key + '/exact-extent', okr, 'view: the raw slice covers exactly the value (stride 1 element, length = element count = storage size)', w, 'avail=%d stride=1 len=%d' % (N, N), rsl)
+        elif k == 'zstlen':
+            got = [str(x) for x in leaves(p.ret)]
+            ctx.ob(key, got == [str(N)] * 5, 'view: for a zero-sized element type every slice view still has one entry per element', w, [N] * 5, got)
         elif k == 'selfview':
             ret = p.ret
             okp = isinstance(ret, Ptr) and ret.d.get('alloc') == 'arg:a0' and ret.d.get('path') in ('[]',) and int(ret.d.get('off', -1)) == 0 and not ret.d.get('sl')
@@ -330,4 +335,4 @@ def run(ctx):
     if not ctx.only: check_local(ctx, sc, roots + croots)
     ctx.floor('iterator states analysed', sum(len(v) for v in kinds_states.values()), 220 if quick else 2992)
     ctx.floor('vector kinds with a model-checked iterator', len(kinds_states), 11 if quick else 13)
-    ctx.floor('conversion / view roots', len(croots), 373)
+    ctx.floor('conversion / view roots', len(croots), 386)
